@@ -106,6 +106,8 @@ func checkC08(w *World, c *Check, tier string) {
 	c.stat("cast_sites", len(sites))
 	c.stat("architectures", len(gcArches))
 	c.floor("C08.narrow", 10)
+	c.floor("C08.assert", 20)
+	checkAssertionsTested(w, c, "C08.assert", w.Funcs)
 	c.floor("C08.prefix", 10)
 	seen := map[string]int{}
 	for _, s := range sites {
